@@ -717,6 +717,12 @@ typedef struct {
     if ((data) >= (st)->end) janet_panic("unexpected end of source");\
 } while (0)
 
+/* Counts read from the image are checked against the input that is left before they size an
+ * allocation: every element takes at least one byte. */
+static void marsh_need(UnmarshalState *st, const uint8_t *data, int64_t n) {
+    if (n < 0 || (int64_t)(st->end - data) < n) janet_panic("unexpected end of source");
+}
+
 /* Helper to read a 32 bit integer from an unmarshal state */
 static int32_t readint(UnmarshalState *st, const uint8_t **atdata) {
     const uint8_t *data = *atdata;
@@ -843,6 +849,7 @@ static const uint8_t *unmarshal_one_env(
         janet_v_push(st->lookup_envs, env);
         int32_t offset = readnat(st, &data);
         int32_t length = readnat(st, &data);
+        if (offset <= 0) marsh_need(st, data, length);
         if (offset > 0) {
             Janet fiberv;
             /* On stack variant */
@@ -942,6 +949,8 @@ static const uint8_t *unmarshal_one_def(
             defs_length = readnat(st, &data);
         if (def->flags & JANET_FUNCDEF_FLAG_HASSYMBOLMAP)
             symbolmap_length = readnat(st, &data);
+        marsh_need(st, data, (int64_t) constants_length + 4 * (int64_t) bytecode_length +
+                   (int64_t) environments_length + (int64_t) defs_length + 4 * (int64_t) symbolmap_length);
 
         /* Check name and source (optional) */
         if (def->flags & JANET_FUNCDEF_FLAG_HASNAME) {
@@ -1107,6 +1116,10 @@ static const uint8_t *unmarshal_one_fiber(
             fiber_stacktop > fiber_maxstack) {
         janet_panic("fiber has incorrect stack setup");
     }
+    /* every stack slot below stackstart is covered by a frame of the image, at one byte or more each */
+    marsh_need(st, data, fiber_stackstart > 2 * JANET_FRAME_SIZE ? fiber_stackstart - 2 * JANET_FRAME_SIZE : 0);
+    /* slots above stackstart (arguments being pushed) are not part of the image */
+    if (fiber_stacktop - fiber_stackstart > 0xFFFF) janet_panic("fiber has incorrect stack setup");
 
     /* Allocate stack memory */
     fiber->capacity = fiber_stacktop + 10;
